@@ -30,7 +30,7 @@ from elementpath.datatypes import UntypedAtomic, QName, AnyURI, \
     GregorianMonthDay, GregorianYear, GregorianYearMonth
 from elementpath.xpath_nodes import ElementNode, DocumentNode, XPathNode, AttributeNode
 from elementpath.sequences import xlist
-from elementpath.sequence_types import is_instance
+from elementpath.sequence_types import is_instance, is_node_instance
 from elementpath.xpath_context import XPathSchemaContext
 from elementpath.xpath_tokens import XPathToken, XPathFunction, XPathConstructor
 
@@ -772,7 +772,7 @@ def select__element_kind_test(self: XPathFunction, context: ta.ContextType = Non
                         yield item
                 elif item.type_name == type_annotation:
                     yield item
-                elif is_instance(item.typed_value, type_annotation, self.parser):
+                elif is_node_instance(item, type_annotation, self.parser):
                     yield item
 
 
@@ -926,7 +926,7 @@ def select__attribute_kind_test_or_axis(self: XPathToken, context: ta.ContextTyp
                     if name != '*':
                         yield attribute
                 elif not type_name or attribute.type_name == type_name or \
-                        is_instance(attribute.typed_value, type_name, self.parser):
+                        is_node_instance(attribute, type_name, self.parser):
                     yield attribute
 
 
